@@ -368,8 +368,148 @@ static rc::Gen<FileCase> genFile() {
   });
 }
 
+// ---------------------------------------------------------------- phase scripts: silent progress, restart with a new window, pause / re-enable
+struct SStep { int op = 0, a = 0, b = 0; };
+struct ScriptCase {
+  int ev_flags = 0, after_every_read = 0, on_timeout = 0, pause_data_k = 0, timeout_ms = 0, buf_size = 64, win_off = 0, win_len = 64;
+  std::vector<SStep> steps;
+  Bytes plan;
+  std::string ser() const {
+    Writer w;
+    w.i("ev_flags", ev_flags).i("after_every_read", after_every_read).i("on_timeout", on_timeout).i("pause_data_k", pause_data_k).i("timeout_ms", timeout_ms)
+        .i("buf_size", buf_size).i("win_off", win_off).i("win_len", win_len).i("nsteps", (long long)steps.size());
+    for (size_t i = 0; i < steps.size(); i++) w.iv(("s" + std::to_string(i)).c_str(), {steps[i].op, steps[i].a, steps[i].b});
+    w.b("plan", plan);
+    return w.str();
+  }
+  static ScriptCase parse(const std::string &t) {
+    Reader r(t);
+    ScriptCase c;
+    c.ev_flags = (int)r.i("ev_flags"); c.after_every_read = (int)r.i("after_every_read"); c.on_timeout = (int)r.i("on_timeout"); c.pause_data_k = (int)r.i("pause_data_k");
+    c.timeout_ms = (int)r.i("timeout_ms"); c.buf_size = (int)r.i("buf_size", 64); c.win_off = (int)r.i("win_off"); c.win_len = (int)r.i("win_len", 64);
+    int n = (int)r.i("nsteps");
+    for (int i = 0; i < n; i++) { auto v = r.iv(("s" + std::to_string(i)).c_str()); v.resize(3, 0); c.steps.push_back(SStep{(int)v[0], (int)v[1], (int)v[2]}); }
+    c.plan = r.b("plan");
+    return c;
+  }
+};
+void showValue(const ScriptCase &c, std::ostream &os) { os << c.ser(); }
+
+static Verdict run_script(const ScriptCase &c) {
+  PBT_REQUIRE(c.buf_size >= 8 && c.buf_size <= 2048 && c.win_len >= 1 && c.win_off >= 0 && c.win_off + c.win_len <= c.buf_size, "harness: script scenario outside its envelope");
+  c16s_scn s;
+  memset(&s, 0, sizeof s);
+  s.ev_flags = (uint8_t)(c.ev_flags == 2 ? 2 : 0); s.after_every_read = (uint8_t)(c.after_every_read != 0); s.on_timeout = (uint8_t)(c.on_timeout != 0);
+  s.pause_data_k = (uint8_t)std::max(0, std::min(c.pause_data_k, 20)); s.timeout_ms = (uint16_t)c.timeout_ms;
+  s.buf_size = (uint16_t)c.buf_size; s.win_off = (uint16_t)c.win_off; s.win_len = (uint16_t)c.win_len;
+  s.nsteps = (uint8_t)std::min<size_t>(c.steps.size(), C16S_MAX_STEPS);
+  for (int i = 0; i < s.nsteps; i++) {
+    SStep st = c.steps[i];
+    if (st.op == S_RESTART) { st.a = std::max(0, std::min(st.a, c.buf_size - 1)); st.b = std::max(1, std::min(st.b, c.buf_size - st.a)); }
+    if (st.op == S_WRITE) st.a = std::max(1, std::min(st.a, 4096));
+    if (st.op == S_SLEEP) st.a = std::max(0, std::min(st.a, 20));
+    s.steps[i].op = (uint8_t)st.op; s.steps[i].a = (uint16_t)st.a; s.steps[i].b = (uint16_t)st.b;
+  }
+  s.plans.plan_len = (uint32_t)std::min<size_t>(c.plan.size(), TP_PLAN_MAX);
+  memcpy(s.plans.plan, c.plan.data(), s.plans.plan_len);
+  Verdict v = Verdict::pass();
+  for (int attempt = 0; attempt < 3; attempt++) {
+    std::unique_ptr<c16s_out> op(new c16s_out());
+    c16s_out &o = *op;
+    alarm(300);
+    c16s_run(&s, &o);
+    alarm(0);
+    PBT_REQUIRE(o.setup_rc == 0, "harness: setup failed " << o.setup_rc);
+    PBT_REQUIRE(o.start_rc == 0, "tp_task_start() returned " << o.start_rc);
+    if (o.hang) { v = Verdict::fail("hang: the owning thread stopped serving its queue"); label("hang_rerun"); continue; }
+    // invariants over the history
+    if (getenv("VERIF_C16S_DUMP")) for (uint32_t i = 0; i < o.nlog; i++) { const c16s_rec &r = o.log[i]; fprintf(stderr, "rec %u type %d err %d eof %u tr %llu adv %llu n %llu off %llu trsz %llu pauses %d skipped %d rc %d\n", i, r.type, r.error, r.eof, (unsigned long long)r.transfered, (unsigned long long)r.adv, (unsigned long long)r.n, (unsigned long long)r.offset, (unsigned long long)r.tr_size, r.pauses, r.skipped, r.rc); }
+    bool paused = false, destroyed = false, nt = false;
+    uint64_t written_while_paused = 0;
+    int pause_idx = -1;
+    for (uint32_t i = 0; i < o.nlog; i++) {
+      const c16s_rec &r = o.log[i];
+      std::ostringstream tg;
+      tg << "history record " << i;
+      std::string tag = tg.str();
+      switch (r.type) {
+      case 1:
+        PBT_REQUIRE(!destroyed, tag << ": callback (error " << r.error << ", " << r.transfered << " bytes) after tp_task_destroy() had returned on the owning thread");
+        PBT_REQUIRE(!paused, tag << ": callback (error " << r.error << ", eof " << r.eof << ", " << r.transfered << " bytes) although the callback of record " << pause_idx
+                                 << " answered with TP_TASK_CB_NONE and neither tp_task_enable(1) nor a restart followed");
+        PBT_REQUIRE(!r.mismatch, tag << ": the bytes placed in the window are not the next bytes of the stream");
+        PBT_REQUIRE(r.transfered == r.adv, tag << ": callback reports " << r.transfered << " transferred bytes, " << r.adv << " bytes were moved into the window since the previous report / (re)start");
+        PBT_REQUIRE(r.error == 0 || r.error == ETIMEDOUT, tag << ": error " << r.error << " reported on a healthy connection");
+        PBT_REQUIRE(!(r.eof & 2), tag << ": end of stream reported while the peer is open");
+        if (r.error == ETIMEDOUT) { PBT_REQUIRE(c.timeout_ms != 0, tag << ": timeout reported by a task without a timeout"); label("script_timeout_reported"); if (r.adv) label("script_timeout_reports_silent_bytes"); }
+        if (r.pauses) { paused = true; pause_idx = (int)i; written_while_paused = 0; label(r.error == ETIMEDOUT ? "script_paused_on_timeout" : "script_paused_on_data"); }
+        break;
+      case 2:
+        if (paused) { written_while_paused += r.n; label("script_data_while_paused"); nt = true; }
+        break;
+      case 3:
+        PBT_REQUIRE(r.rc == 0, tag << ": restart returned " << r.rc);
+        PBT_REQUIRE(!r.mismatch, tag << ": the bytes received before the restart are not the next bytes of the stream");
+        if (r.adv) { label("script_restart_after_silent_progress"); nt = true; }
+        if (paused) label("script_restart_while_paused");
+        paused = false;
+        break;
+      case 4:
+        if (r.skipped) break;
+        PBT_REQUIRE(r.rc == 0, tag << ": tp_task_enable(1) returned " << r.rc);
+        PBT_REQUIRE(r.n >= written_while_paused, tag << ": " << written_while_paused << " bytes arrived after the task was paused (record " << pause_idx << "), only " << r.n
+                                                     << " are still queued when it is re-enabled: the paused task kept reading");
+        paused = false;
+        label("script_reenabled");
+        break;
+      case 5: destroyed = true; break;
+      default: break;
+      }
+    }
+    if (o.never_reported) {
+      v = Verdict::fail(o.never_reported & 1 ? "the stream went on (and the task was re-enabled if paused) but the next full window was never reported" : "an armed idle task never reported its timeout");
+      label("never_reported_rerun");
+      continue;  // reported only if it happens in 3 of 3 runs
+    }
+    PBT_REQUIRE(!o.foreign_thread, "callback on a thread other than the task's");
+    PBT_REQUIRE(!o.guards_bad, "bytes outside the buffer were modified");
+    PBT_REQUIRE(o.res.live_fds == 0 && o.res.live_allocs == 0 && o.res.double_free == 0, "script left resources behind (descriptors " << o.res.live_fds << ", allocations " << o.res.live_allocs << ")");
+    if (o.log_overflow) label("script_log_full");
+    if (nt) nontrivial_cur();
+    return Verdict::pass();
+  }
+  return v;
+}
+
+static rc::Gen<ScriptCase> genScript() {
+  return rc::gen::exec([]() {
+    ScriptCase c;
+    c.ev_flags = *rc::gen::element(0, 2, 2);
+    c.after_every_read = *rc::gen::weightedElement<int>({{3, 0}, {1, 1}});
+    c.timeout_ms = *rc::gen::weightedElement<int>({{2, 0}, {2, 60}, {1, 100}});
+    c.on_timeout = *rc::gen::weightedElement<int>({{1, 0}, {2, 1}});
+    c.pause_data_k = (c.ev_flags == 2) ? *rc::gen::weightedElement<int>({{3, 0}, {1, 1}, {1, 2}}) : 0;
+    c.buf_size = *rc::gen::element(32, 64, 200, 512, 2048);
+    c.win_off = *rc::gen::weightedElement<int>({{2, 0}, {3, *range<int>(0, c.buf_size - 8)}});
+    c.win_len = *rc::gen::weightedElement<int>({{2, c.buf_size - c.win_off}, {3, *range<int>(4, c.buf_size - c.win_off)}});
+    int n = *range<int>(2, 8);
+    int cur_len = c.win_len;
+    for (int i = 0; i < n; i++) {
+      SStep st;
+      st.op = *rc::gen::weightedElement<int>({{5, (int)S_WRITE}, {c.timeout_ms ? 3 : 0, (int)S_WAIT_TIMEOUT}, {3, (int)S_RESTART}, {2, (int)S_ENABLE}, {1, (int)S_SLEEP}});
+      if (st.op == S_WRITE) st.a = *rc::gen::weightedElement<int>({{4, *range<int>(1, std::max(1, cur_len - 1))}, {1, cur_len}, {1, *range<int>(1, 2 * c.buf_size)}});  // mostly less than the window: silent progress
+      if (st.op == S_RESTART) { st.a = *range<int>(0, c.buf_size - 4); st.b = *range<int>(2, c.buf_size - st.a); cur_len = st.b; }
+      if (st.op == S_SLEEP) st.a = *range<int>(1, 10);
+      c.steps.push_back(st);
+    }
+    c.plan = *bytes_upto(8);
+    return c;
+  });
+}
+
 int main(int argc, char **argv) {
   add_check<TaskCase>("task_histories", 800, 100, genCase, run_case);
   add_check<FileCase>("file_tasks", 1500, 100, genFile, run_file);
+  add_check<ScriptCase>("task_scripts", 500, 100, genScript, run_script);
   return driver_main(argc, argv);
 }
